@@ -43,8 +43,8 @@ PYAGREE = {
     'C08': ['MiscTimer', 'LayerTx'],
     'C09': ['AddressFns', 'AddressInit', 'LayerSend'],
     'C12': ['LayerTxHelpers', 'LayerQueues', 'Exec2Bridge', 'LayerSend'],
-    'C13': ['PyCan', 'Threaded'],
-    'C14': ['LayerQueues', 'Exec2Bridge', 'Threaded'],
+    'C13': ['PyCan', 'Threaded', 'ThreadedWorker'],
+    'C14': ['LayerQueues', 'Exec2Bridge', 'Threaded', 'ThreadedWorker'],
     'C10': ['LayerProcess', 'LayerWhole'],
     'C15': ['LayerTxHelpers'],
     'C16': ['AddressValidate', 'AddressInit'],
@@ -53,7 +53,7 @@ PYAGREE = {
     'C20': ['AddressFns', 'SockOpts', 'SockGuards'],
 }
 # leaves that are finished and committed
-PYAGREE_READY = {'Threaded', 'PyCan', 'LayerWhole', 'SockGuards', 'LayerTxWhole', 'MiscFrame', 'LayerProcess', 'LayerTx', 'LayerRx', 'LayerSend', 'LayerTxHelpers', 'LayerQueues', 'Exec2Bridge', 'SockOpts', 'AddressFns', 'AddressValidate', 'AddressInit', 'Pdu', 'MiscFd', 'MiscFc', 'MiscTimer'}
+PYAGREE_READY = {'ThreadedWorker', 'Threaded', 'PyCan', 'LayerWhole', 'SockGuards', 'LayerTxWhole', 'MiscFrame', 'LayerProcess', 'LayerTx', 'LayerRx', 'LayerSend', 'LayerTxHelpers', 'LayerQueues', 'Exec2Bridge', 'SockOpts', 'AddressFns', 'AddressValidate', 'AddressInit', 'Pdu', 'MiscFd', 'MiscFc', 'MiscTimer'}
 
 
 def pyagree_theorems(mod):
